@@ -331,6 +331,22 @@ class Ctx:
                 (self.work / ("%s_%d.tlcout" % (name, n))).write_text(res.out)
                 raise MachineryError("invariant %s violated while validating traces with %s; "
                                      "trace specs must be total (see %s)" % (res.violated, module, tf))
+            if not res.ok and "TLC was evaluating the nested" in res.out and not res.violated:
+                # TLC could not even EVALUATE the spec on a recorded event (a logged value of the wrong shape or type):
+                # such an execution is not a behaviour of the specification.  Find the trace(s) by bisection and give
+                # them the verdict "uninterpretable@1"; everything else in the chunk is still judged normally.
+                self._bisect = getattr(self, "_bisect", 0) + 1
+                if len(part) == 1 or self._bisect > 40:
+                    for i in range(len(part)):
+                        verdicts[c0 + i] = "uninterpretable@1"
+                    (self.work / ("%s_%d.tlcout" % (name, n))).write_text(res.out)
+                else:
+                    h = len(part) // 2
+                    sub = self.validate(module, cfg, part[:h], name, env=env, chunk=len(part), timeout=timeout, workers=workers) + \
+                        self.validate(module, cfg, part[h:], name, env=env, chunk=len(part), timeout=timeout, workers=workers)
+                    for i, v in enumerate(sub):
+                        verdicts[c0 + i] = v
+                continue
             if not res.ok:
                 (self.work / "tlc_fail.log").write_text(res.out)
                 raise MachineryError("TLC failed validating %s (rc=%s):\n%s" % (module, res.rc, res.out[-3000:]))
